@@ -94,7 +94,8 @@ PROPS = {
     "C08": dict(random=RND, families=plan("var_s", "eff_s")),
     "C09": dict(random=RND, families=plan("obs_s")),
     "C10": dict(random=RND, families=plan("obs_s")),
-    "C11": dict(random=RND, families=plan("obs_s", "bind_s")),
+    # thorough additionally audits the snapshots of the repository's own 74 tests (stage_owntests)
+    "C11": dict(random=RND, families=plan("obs_s", "bind_s"), stage_modules_thorough=["stage_owntests"]),
     "C12": dict(random=RND, families=plan("own_s", "ownbind_s")),
     "C13": dict(families=plan("panic_s"), profiles=["debug", "release"]),
     "C14": dict(families=plan("xjoin_s", "xsum_s")),
